@@ -99,6 +99,7 @@ prop(
     rule="evaluations = Liquidate calls that succeeded or were refused by the margin guard. R0 engine MarginRatio query vs recomputation (+-1); R1 success only if the recomputed ratio <= maintenance; "
          "the recomputation uses the stored position, the monitor's own funding checkpoints and cumulative fraction, the vAMM's spot quote and the 15-minute TWAP notional, which is cross-checked against (and on disagreement replaced by) the value computed from the monitor's own end-of-block reserve timeline; "
          "R2 full: position removed, liquidator gets half of quote*fee (+-1), trader nothing, remaining margin to insurance (+-1); R3 partial: |size| shrinks by exactly floor(|size|*p/D), no flip/growth, liquidator and insurance get half the penalty each. "
+         "Auxiliary oracle (rules prefixed ledger:): the per-operation margin / open-notional / funding ledger of C11 runs alongside, because a liquidation is judged and paid from the stored position and a wrong value booked by an earlier operation of the owner (e.g. a partial close) is consumed by the liquidation only later. "
          "distinct = (path or refusal, direction, deciding ratio spot/TWAP/oracle, distance-to-boundary bucket, caller kind, oracle kind).",
     essential=["full-liquidations", "partial-liquidations", "refused-by-guard", "R0-ratio-compared"],
     text="Every observed liquidation was checked against an independently computed ratio and payout; boundary reached by moving the maintenance ratio onto the observed ratio.",
@@ -134,6 +135,7 @@ prop(
     technique="transfer-log oracle: exact list of fee transfers per successful operation recomputed from notional and stored ratios",
     design_ref="DESIGN.md §4 C12",
     rule="evaluations = successful Open/Close(whole)/Deposit/Withdraw/PayFunding/Liquidate calls. Ratios: the monitor's own record of what each vAMM was given (instantiate message, accepted UpdateConfig fields), never the vAMM's report about itself; R0 a vAMM reporting ratios other than those it was instantiated with. Open: exactly one transfer floor(N*spread/D) to the insurance fund and one floor(N*toll/D) to the fee pool (none when 0), N=floor(margin*leverage/D), payer = trader (cw20) or engine out of attached funds (native), on increase, reduce and both reversal outcomes; "
+         "Auxiliary oracle (rules prefixed ledger:): the per-operation ledger of C11 runs alongside, because the fee of a close is charged on the stored open notional, which an earlier partial close may have booked wrongly. "
          "whole close: the same on the pre-state open notional; partial close: the same on the quote amount the engine asks the vAMM to swap (observed change of the quote reserve); deposit/withdraw/funding/liquidation: nothing to the fee pool and no fee-like transfer to the insurance fund. distinct = (operation, reply path, fee zero / rounds-to-zero / non-zero, collateral kind).",
     essential=["fees:open:fee", "fees:close:fee", "fees:no-fee-ops", "fees:open:rounds-to-zero"],
     text="Exact fee lists checked on every successful operation across toll/spread settings incl. ones rounding to zero.",
